@@ -12,7 +12,8 @@ if TYPE_CHECKING:
 
 @lru_cache(1024)
 def _struct(endian: str, packchar: str) -> Struct:
-    return Struct(f"{endian}{packchar}")
+    # Only the byte order of "@" is meant: native sizes and alignment padding would not match the type sizes
+    return Struct(f"{'=' if endian == '@' else endian}{packchar}")
 
 
 T = TypeVar("T", int, float)
